@@ -22,6 +22,8 @@ GEN_CLASSES = [
     # input blocks named like generated blocks / regions / variables (legal
     # closed CFGs; what a graph read back between stages looks like)
     ("names_namespace", 400, 10000, "bytecode"),
+    # names equal up to case / whitespace / numeric value / unicode form
+    ("names_collide", 400, 10000, "basic"),
 ]
 
 
